@@ -25,6 +25,17 @@ def nested {F : Type} (bop : Bool → Bool → Bool) (den : (α → Bool) → F 
   | [], f, ρ => den ρ f
   | x :: xs, f, ρ => bop (nested bop den xs f (upd ρ x false)) (nested bop den xs f (upd ρ x true))
 
+/-- eliminating variables the function does not depend on changes nothing, for an idempotent operator -/
+theorem nested_foreign {F : Type} (bop : Bool → Bool → Bool) (hid : ∀ a, bop a a = a)
+    (den : (α → Bool) → F → Bool) (f : F) (vs : List α)
+    (hind : ∀ x ∈ vs, ∀ ρ b, den (upd ρ x b) f = den ρ f) : ∀ ρ, nested bop den vs f ρ = den ρ f := by
+  induction vs with
+  | nil => intro ρ; rfl
+  | cons x xs ih =>
+    intro ρ
+    have ih' := ih (fun y hy => hind y (by simp [hy]))
+    simp only [nested, ih', hind x (by simp), hid]
+
 /-- the medial law, satisfied by `||`, `&&` and `!=` -/
 def Medial (bop : Bool → Bool → Bool) : Prop :=
   ∀ a b c d, bop (bop a b) (bop c d) = bop (bop a c) (bop b d)
